@@ -736,27 +736,63 @@ func verifyAll(prog *ssa.Program, ix fnIndex, mine []*Contract, all map[string]*
 	// competition for the cores, so that a loaded machine does not turn a
 	// proof that normally takes a second into an alarm. Known-finding halves
 	// and covers are not retried (they are expected not to be proved).
-	retry := make(chan struct{}, 6)
-	retryLimit := 2 * o.Timeout
-	if o.Tier == "thorough" {
-		retryLimit = o.Timeout
-	}
-	for _, j := range jobs {
-		r := results[j.idx]
-		if r.Verdict == "unsat" || r.Verdict == "sat" || j.ob.Known || j.ob.Kind == "cover" || strings.HasPrefix(r.Verdict, "error") {
-			continue
+	// The limit of a retry is scaled by the load measured *now* (the load at the
+	// start of the run says nothing when several checks were started together);
+	// what is still undecided gets a last, almost sequential attempt.
+	base := o.Timeout
+	if f := loadFactor(); f > 1 {
+		base = time.Duration(float64(base) / f) // o.Timeout was already scaled by the load at start
+		if base < 20*time.Second {
+			base = 20 * time.Second
 		}
-		wg.Add(1)
-		retry <- struct{}{}
-		go func(j job) {
-			defer wg.Done()
-			defer func() { <-retry }()
-			r := solve(filepath.Join(o.OutDir, "smt"), j.e, j.ob, retryLimit)
-			r.Solver += "(retry)"
-			results[j.idx] = r
-		}(j)
 	}
-	wg.Wait()
+	for attempt, par := range []int{6, 2, 1} {
+		retry := make(chan struct{}, par)
+		limit := time.Duration(float64(2*(attempt+1)) * float64(base) * loadFactor())
+		if attempt == 2 {
+			// last resort on a heavily loaded machine: a handful of obligations, one
+			// at a time, with a long limit (skipped when many are undecided: that is
+			// a broken contract or a real violation, not load)
+			n := 0
+			for _, j := range jobs {
+				r := results[j.idx]
+				if !(r.Verdict == "unsat" || r.Verdict == "sat" || j.ob.Known || j.ob.Kind == "cover" || strings.HasPrefix(r.Verdict, "error")) {
+					n++
+				}
+			}
+			if n > 8 || loadFactor() < 1.5 {
+				break
+			}
+			limit = 8 * base * time.Duration(loadFactor())
+			if limit > 10*time.Minute {
+				limit = 10 * time.Minute
+			}
+		}
+		if o.Tier == "thorough" && attempt == 0 {
+			limit = o.Timeout
+		}
+		pending := 0
+		for _, j := range jobs {
+			r := results[j.idx]
+			if r.Verdict == "unsat" || r.Verdict == "sat" || j.ob.Known || j.ob.Kind == "cover" || strings.HasPrefix(r.Verdict, "error") {
+				continue
+			}
+			pending++
+			wg.Add(1)
+			retry <- struct{}{}
+			go func(j job) {
+				defer wg.Done()
+				defer func() { <-retry }()
+				r := solve(filepath.Join(o.OutDir, "smt"), j.e, j.ob, limit)
+				r.Solver += "(retry)"
+				results[j.idx] = r
+			}(j)
+		}
+		wg.Wait()
+		if pending == 0 {
+			break
+		}
+	}
 	for _, j := range jobs {
 		j.rep.Results = append(j.rep.Results, results[j.idx])
 	}
